@@ -52,17 +52,38 @@ def decorator_sites(run, model, rule="C17.mutation-sites"):
 
 
 def invariant_decorator_table(run, model, rule="C17.own-lists"):
-    """invariant.__call__: fresh lists iff the class has none; appends by check_on."""
+    """invariant.__call__: fresh lists iff the class has none; appends by check_on; a class made by the metaclass
+    that merely *inherits* a list (its base was decorated after the class had been created) gets its own copy first."""
     fi = model.method("_decorators", "invariant", "__call__")
     flow = get_flow(model, fi)
     run.saw(flow)
     ps = tables.paths(flow)
     cls_p = ("param", fi.params[1])
     inv_t = ("attr", ("param", "self"), "_invariant")
-    for has in (False, True):
+    meta_cls = ("class", "_metaclass", "DBCMeta")
+
+    def is_copy_of(t, name):
+        """a fresh list with the elements of ``cls.<name>``: ``x[:]``, ``list(x)``, ``x.copy()``, ``x + []``, ``[*x]``"""
+        t = strip_sites(t)
+        src = ("attr", cls_p, name)
+        if t[0] == "idx" and t[1] == src and t[2] == ("op", "slice", (("const", "None"),) * 3):
+            return True
+        if t[0] == "call" and t[1] == ("builtin", "list") and t[2] == (src,) and not t[3]:
+            return True
+        if t[0] == "call" and t[1] == ("attr", src, "copy") and not t[2] and not t[3]:
+            return True
+        if t[0] == "op" and t[1] == "Add" and t[2][0] == src and t[2][1][0] == "display" and not t[2][1][2]:
+            return True
+        if t[0] == "display" and t[1] == "list" and t[2] == (("star", src),):
+            return True
+        return False
+
+    # rows: the class has no list at all / has (own or, outside the metaclass, shared as documented) / is a class of
+    # the metaclass that inherits the lists of a base without owning them
+    for has, inherits in ((False, False), (True, False), (True, True)):
         for call_ in (False, True):
             for seta in (False, True):
-                def ev(t, has=has, call_=call_, seta=seta):
+                def ev(t, has=has, inherits=inherits, call_=call_, seta=seta):
                     ts = strip_sites(t)
                     if ts == ("attr", ("param", "self"), "enabled"):
                         return True
@@ -71,6 +92,18 @@ def invariant_decorator_table(run, model, rule="C17.own-lists"):
                     if ts[0] == "op" and ts[1] == "cmp:In" and ts[2][1] == ("attr", inv_t, "check_on") and ts[2][0][0] in ("attr", "global"):
                         which = ts[2][0][2]
                         return call_ if which == "CALL" else (seta if which == "SETATTR" else None)
+                    if ts[0] == "call" and ts[1] == ("builtin", "isinstance") and ts[2][0] == cls_p and meta_cls in tuple(subterms(ts[2][1])):
+                        return inherits
+                    if ts[0] == "op" and ts[1] == "cmp:Is" and ts[2][0] == ("call", ("builtin", "type"), (cls_p,), ()) and ts[2][1] == meta_cls:
+                        return inherits
+                    if ts[0] == "op" and ts[1] in ("cmp:In", "cmp:NotIn") and ts[2][0][0] == "const" and ts[2][1] in (("attr", cls_p, "__dict__"), ("call", ("builtin", "vars"), (cls_p,), ())):
+                        try:
+                            nm = ast.literal_eval(ts[2][0][1])
+                        except Exception:  # pylint: disable=broad-except
+                            nm = None
+                        if nm in DUNDERS_INV:
+                            owns = has and not inherits
+                            return owns if ts[1] == "cmp:In" else not owns
                     if ts[0] == "call" and ts[1] == ("builtin", "isinstance"):
                         return True
                     if ts[0] == "op" and ts[1] == "cmp:IsNot" and ts[2][1] == ("const", "None"):
@@ -78,24 +111,35 @@ def invariant_decorator_table(run, model, rule="C17.own-lists"):
                     return None
 
                 feas = [p for p in ps if tables.feasible(p, ev)]
-                construct = "%s[class %s __invariants__, check_on CALL=%s SETATTR=%s]" % (fi.qual, "has" if has else "has no", call_, seta)
+                construct = "%s[class %s __invariants__, check_on CALL=%s SETATTR=%s]" % (fi.qual, "has no" if not has else ("of the metaclass inherits, does not own," if inherits else "has"), call_, seta)
                 bad = None
                 if len(feas) != 1:
                     bad = "%d feasible paths (expected one)" % len(feas)
                 else:
                     p = feas[0]
                     sets = sorted(ast.literal_eval(ct[2][1][1]) for ct, n in p.calls if ct[1] == ("builtin", "setattr") and ct[2][0] == cls_p and ct[2][1][0] == "const" and ct[2][2][0] == "display" and not ct[2][2][2])
-                    apps = []
+                    copies = {}
+                    for ct, n in p.calls:
+                        if ct[1] == ("builtin", "setattr") and ct[2][0] == cls_p and ct[2][1][0] == "const":
+                            nm = ast.literal_eval(ct[2][1][1])
+                            if nm in DUNDERS_INV and is_copy_of(ct[2][2], nm):
+                                copies[nm] = strip_sites(ct[2][2])
+                    apps, shared = [], []
                     for ct, n in p.calls:
                         if ct[1][0] == "attr" and ct[1][2] == "append" and ct[2] == (inv_t,):
                             recv = ct[1][1]
                             name = None
                             if recv[0] == "attr" and recv[1] == cls_p:
                                 name = recv[2]
+                                shared.append(name)
                             elif recv[0] == "display":
                                 for c2, n2 in p.calls:
                                     if c2[1] == ("builtin", "setattr") and c2[2][0] == cls_p and c2[2][2] == recv:
                                         name = ast.literal_eval(c2[2][1][1])
+                            else:
+                                for nm, ctm in copies.items():
+                                    if strip_sites(recv) == ctm:
+                                        name = nm
                             if name is None and recv[0] not in ("attr", "display", "call", "param", "global"):
                                 raise AnalysisError("%s: the list the invariant is appended to is not read off the class or a fresh list set on it (%s); the table of the decorator's lists cannot name it" % (fi.qual, show(recv, 60)))
                             apps.append(name)
@@ -105,9 +149,13 @@ def invariant_decorator_table(run, model, rule="C17.own-lists"):
                         bad = "sets fresh lists %s on the class, expected %s" % (sets, want_sets)
                     elif sorted(x or "?" for x in apps) != sorted(want_apps):
                         bad = "appends the invariant to %s, expected %s" % (apps, want_apps)
+                    elif inherits and shared:
+                        bad = "appends the invariant to %s read off the class by ordinary look-up although the class does not own the list: a class of the metaclass whose base was decorated after the class had been created inherits the base's list object, and the invariant slips into the base and all its other descendants" % ", ".join("`%s`" % x for x in shared)
+                    elif inherits and sorted(copies) != sorted(DUNDERS_INV):
+                        bad = "gives the class its own copy of %s only, expected all of %s (a later decoration appends to the lists it does not own)" % (sorted(copies), sorted(DUNDERS_INV))
                     elif p.outcome is None or p.outcome[0] != "return" or p.outcome[1] != cls_p:
                         bad = "does not return the class it was given"
-                run.check(bad is None, rule, construct, "lists created iff absent; invariant appended by its check_on; same class returned", bad or "", fi.loc(), None, construct.split("[", 1)[1])
+                run.check(bad is None, rule, construct, "lists created iff absent, copied iff inherited by a class of the metaclass; invariant appended by its check_on; same class returned", bad or "", fi.loc(), None, construct.split("[", 1)[1])
 
 
 def install_on_class_only(run, model, rule="C17.install-on-class"):
